@@ -18,13 +18,14 @@ Three kinds of treatment, all fail closed (``TranslationError`` on anything not 
   ``ro()`` (resolver construction, ``use_legacy`` selection), ``is_consistent`` (strict argument,
   is ``mro()`` run before the flag is read).
 * PINNED (must be structurally identical to the copy below, nothing is generated; the
-  hand model Model/Ro.v covers them): ``_legacy_flatten`` (the iterative splice into a list being
-  iterated has no sound translation in this vocabulary), ``C3.resolver``, ``C3.legacy_ro``,
+  hand model Model/Ro.v covers them): ``C3.resolver``, ``C3.legacy_ro`` (a per-resolver memo of
+  ``_legacy_ro(self.leaf)``),
   ``C3.mro``, ``_StaticMRO``, ``_TrackingC3._guess_next_base``, the resolver-building loop of
   ``C3.__init__``.
 
 Explicitly ignored BY NAME inside ``ro()``: ``assert`` statements, assignments to ``changed``,
-``legacy_without_root``, ``mro_without_root``, ``comparison`` and ``_logger().warning(...)`` calls
+``legacy_without_root``, ``mro_without_root``, ``comparison`` (``_ROComparison`` only formats the
+log message) and ``_logger().warning(...)`` calls
 (checked to contain no ``return``/``raise``, no other assignment and no list mutation);
 in ``_guess_next_base``: ``self._warn_iro()``.
 
@@ -941,7 +942,6 @@ def _translate_ro(module, pinned):
         return _find(cls.body, ast.FunctionDef, name, "method")
 
     # ---- pinned
-    _pinned(_find(top, ast.FunctionDef, "_legacy_flatten", "function"), pinned, ["_legacy_flatten"], "_legacy_flatten")
     _pinned(static, pinned, ["_StaticMRO"], "_StaticMRO")
     _pinned(meth(c3, "resolver"), pinned, ["C3", "resolver"], "C3.resolver")
     _pinned(meth(c3, "legacy_ro"), pinned, ["C3", "legacy_ro"], "C3.legacy_ro")
@@ -962,7 +962,11 @@ def _translate_ro(module, pinned):
         _fail(fn, "_legacy_ro is not `return _legacy_mergeOrderings([_legacy_flatten(ob)])`")
     out.append(_define("gen_legacy_ro", [("legacy_flatten_ob", "list")], "list nat",
                        "gen_legacy_mergeOrderings [legacy_flatten_ob]",
-                       "ro.py:_legacy_ro (the value of _legacy_flatten(ob) is a parameter: hand-modelled)"))
+                       "ro.py:_legacy_ro applied to the value of _legacy_flatten(ob)"))
+    out.append(_translate_flatten(_find(top, ast.FunctionDef, "_legacy_flatten", "function")))
+    out.append("(* ro.py:_legacy_ro(ob) = _legacy_mergeOrderings([_legacy_flatten(ob)]); None = loop fuel ran out *)\n"
+               "Definition gen_legacy_ro_of (fuel : nat) (bases_of : nat -> list nat) (ob : nat) : option (list nat) :=\n"
+               "  match gen_legacy_flatten fuel bases_of ob with Some flat => Some (gen_legacy_ro flat) | None => None end.\n")
 
     # ---- _can_choose_base
     fn = meth(c3, "_can_choose_base")
@@ -1189,6 +1193,62 @@ def _translate_ro(module, pinned):
                "  let direct := if gen_is_consistent_calls_mro then direct_after_mro else false in\n"
                "  %s.\n" % (strict_arg, strict_arg, calls_mro, ret))
     return out
+
+
+def _translate_flatten(fn):
+    """``_legacy_flatten``: the idiom
+
+        result = [begin]; i = 0
+        for ob in iter(result):      # the list iterator re-reads len(result) at every step
+            i += 1                   # i is only written here: i == (position of ob) + 1
+            result[i:i] = E(ob)      # splice right behind the cursor
+        return result
+
+    The cursor invariant makes result = done ++ rest with len(done) == i; one step moves the head of
+    ``rest`` to ``done`` and puts E(ob) in front of what is left.  The loop runs once per element of the
+    final list, so it is a Fixpoint on explicit fuel over (done, rest).  Only this exact shape is
+    accepted; E may be ``ob.__bases__`` (optionally through list()/tuple()/reversed())."""
+    _args(fn, ["begin"])
+    body = _strip_doc(fn.body)
+    if len(body) != 4:
+        _fail(fn, "_legacy_flatten: unexpected number of statements")
+    if not _same(body[0], "result = [begin]"):
+        _fail(body[0], "_legacy_flatten: expected `result = [begin]`")
+    if not _same(body[1], "i = 0"):
+        _fail(body[1], "_legacy_flatten: expected `i = 0`")
+    loop = body[2]
+    if not (isinstance(loop, ast.For) and not loop.orelse and _same(loop.target, "ob")
+            and _same(loop.iter, "iter(result)") and len(loop.body) == 2):
+        _fail(loop, "_legacy_flatten: expected `for ob in iter(result):` with two statements")
+    if not _same(loop.body[0], "i += 1"):
+        _fail(loop.body[0], "_legacy_flatten: expected `i += 1` first in the loop")
+    sp = loop.body[1]
+    if not (isinstance(sp, ast.Assign) and len(sp.targets) == 1 and _same(sp.targets[0], "result[i:i]")):
+        _fail(sp, "_legacy_flatten: expected `result[i:i] = ...`")
+    if not _same(body[3], "return result"):
+        _fail(body[3], "_legacy_flatten: expected `return result`")
+
+    def spliced(e):
+        if _same(e, "ob.__bases__"):
+            return "(bases_of ob)"
+        if isinstance(e, ast.Call) and isinstance(e.func, ast.Name) and len(e.args) == 1 and not e.keywords:
+            if e.func.id in ("list", "tuple"):
+                return spliced(e.args[0])
+            if e.func.id == "reversed":
+                return "(rev %s)" % spliced(e.args[0])
+        _fail(e, "_legacy_flatten: unsupported spliced expression")
+
+    return ("(* ro.py:_legacy_flatten: work-list form of the splice-behind-the-cursor loop, one unit of fuel per\n"
+            "   element of the final list; bases_of ob = ob.__bases__ *)\n"
+            "Fixpoint gen_legacy_flatten_loop (fuel : nat) (bases_of : nat -> list nat) (done rest : list nat)\n"
+            "  : option (list nat) :=\n"
+            "  match fuel with\n  | 0 => None\n  | S fuel' =>\n"
+            "      match rest with\n      | [] => Some done                      (* the iterator is exhausted: return result *)\n"
+            "      | ob :: rest' => gen_legacy_flatten_loop fuel' bases_of (done ++ [ob]) (%s ++ rest')\n"
+            "      end\n  end.\n\n"
+            "(* result = [begin]; i = 0 *)\n"
+            "Definition gen_legacy_flatten (fuel : nat) (bases_of : nat -> list nat) (begin : nat) : option (list nat) :=\n"
+            "  gen_legacy_flatten_loop fuel bases_of [] [begin].\n" % spliced(sp.value))
 
 
 def _resolver_call(n):
